@@ -95,6 +95,15 @@ inductive HopRes where
   | final (f : Final)
   | follow (next : Url)
 
+/-- A URL the next turn of the loop cannot dial, and the error that turn ends with before any I/O:
+    `set_host` (no host), then in `BaseStream::connect` no known port, then a scheme that is neither
+    http nor https (`for_url` has no proxy for such a scheme, so `set_host` looks at the URL itself). -/
+def undialable (u : Url) : Option E :=
+  if u.hostKind == 9 then some .invalidUrlHost
+  else if u.effPort == 0 then some .invalidUrlPort
+  else if u.scheme == str "http" || u.scheme == str "https" then none
+  else some .invalidBaseUrl
+
 /-- Reading the response of one hop and deciding whether to follow a redirect. -/
 def exchange (s : SendSettings) (req : Req) (cap n : Nat) (url : Url) (hop : Hop) : HopRes :=
   match parseResponse req.methodM s.maxHeaders cap hop.script with
@@ -109,7 +118,11 @@ def exchange (s : SendSettings) (req : Req) (cap n : Nat) (url : Url) (hop : Hop
       | some _ =>
         match hop.resolved with
         | none => .final .redirectionUrl
-        | some next => .follow next
+        | some next =>
+          -- the error of the next turn, which happens before anything is dialled or written
+          match undialable next with
+          | some e => .final (.err e)
+          | none => .follow next
 
 /-- The redirect loop. `hops` lists the connections in order, `url` is the URL of the current hop,
     `n` counts the redirections followed so far, `hdrs` are the request's headers (the Host field
